@@ -10,7 +10,7 @@
 From Coq Require Import List String NArith Arith Bool ZArith.
 Import ListNotations.
 Require Import BS.C08.Model BS.C08.Ind BS.C08.Names BS.C08.Shape BS.C08.NamesInv
-               BS.C08.Proofs BS.C08.Frozen BS.C08.Witness BS.Gen.C08_params.
+               BS.C08.Proofs BS.C08.Frozen BS.C08.Agree BS.C08.Witness BS.Gen.C08_params.
 Local Open Scope nat_scope.
 
 (* ---- tie to the source: the literals compile() builds names from ---- *)
@@ -172,6 +172,26 @@ Theorem C08_compile_env_frozen : forall g g' inv mc fixed,
   compile_gen fixed g inv mc init env = compile_gen fixed g' inv mc init env.
 Proof. exact compile_env_frozen. Qed.
 Print Assumptions C08_compile_env_frozen.
+
+(* ---- the same graph: whoever compiles with the driver's final environment,
+        frozen, gets exactly the driver's tasks and roots, whatever its own
+        caches contain (this is what (Session).run's Freeze is for) ---- *)
+Theorem C08_driver_frozen_agree : forall g g' inv mc fixed init env st roots,
+  wf_dag g -> (forall i, clean (nop (get_node g i))) -> same_but_cache g g' ->
+  compile_gen fixed g inv mc init env = COk st roots ->
+  compile_gen fixed g' inv mc init (freeze (senv st))
+  = COk (mkSt (sstore st) (snamer st) (smemo st) (freeze (senv st))) roots.
+Proof. exact driver_frozen_agree. Qed.
+Print Assumptions C08_driver_frozen_agree.
+
+(* and it is what workers would get if the shipped environment were frozen *)
+Theorem C08_worker_agrees_when_transport_freezes : forall g g' inv mc init st roots,
+  transport_freezes_env = true ->
+  wf_dag g -> (forall i, clean (nop (get_node g i))) -> same_but_cache g g' ->
+  compile_top g inv mc init empty_env = COk st roots ->
+  compile_top g' inv mc init (transported_env empty_env (senv st))
+  = COk (mkSt (sstore st) (snamer st) (smemo st) (freeze (senv st))) roots.
+Proof. exact worker_agrees_when_transport_freezes. Qed.
 
 (* DEFECT (session.go:299-305, bigmachine.go:208-235): the environment shipped to
    workers is task.Invocation.Env, copied before the session froze its own copy;
